@@ -155,7 +155,6 @@ impl Stats {
             }
         }
         self.capped |= o.capped;
-        self.completed_len = if self.max_len_seen == 0 && self.states == o.states { o.completed_len } else { self.completed_len.min(o.completed_len) };
         self.max_len_seen = self.max_len_seen.max(o.max_len_seen);
         if self.samples.len() < 6 {
             self.samples.extend(o.samples.iter().take(1).cloned());
@@ -507,7 +506,7 @@ fn bfs(ctx: &Ctx, procs: &Processors, cfg: &Cfg, bounds: (usize, usize), mode: M
                 stats.debug_checks += 1;
             }
             if stats.samples.is_empty() && h.len() >= 6 && out.violations.is_empty() {
-                stats.samples.push(json!({"config": cfg.short(), "history": history_json(&h), "last_outcome": out.label, "canonical_state": out.state_key}));
+                stats.samples.push(json!({"config": cfg.short(), "history": history_json(&h), "last_outcome": out.label, "canonical_state_modulo_key_value_renaming": out.state_key}));
             }
             if ev == Event::Finalize {
                 stats.finalize_points += 1;
@@ -568,14 +567,10 @@ fn run_all(ctx: &Ctx, procs: &Processors, bounds: (usize, usize), mode: Mode, de
     let mut results = results.into_inner().unwrap();
     results.sort_by_key(|r| r.0);
     let mut total = Stats::default();
-    let mut first = true;
     for (_, st) in &results {
         total.merge(st);
-        if first {
-            total.completed_len = st.completed_len;
-            first = false;
-        }
     }
+    total.completed_len = results.iter().map(|r| r.1.completed_len).min().unwrap_or(0);
     total
 }
 
@@ -652,15 +647,15 @@ fn main() {
         _ => match (mode, args.tier) {
             // the first box is searched twice (order-independence check), the others once
             (Mode::C11, Tier::Quick) => vec![(2, 2), (2, 3)],
-            (Mode::C11, Tier::Thorough) => vec![(2, 3), (2, 4), (3, 3), (3, 4)],
+            (Mode::C11, Tier::Thorough) => vec![(2, 3), (3, 2), (2, 4), (3, 3), (3, 4)],
             (Mode::C12, Tier::Quick) => vec![(2, 1), (2, 2), (1, 2)],
-            (Mode::C12, Tier::Thorough) => vec![(2, 1), (1, 3), (2, 2), (2, 3), (3, 3)],
+            (Mode::C12, Tier::Thorough) => vec![(2, 1), (1, 3), (2, 2), (3, 2), (2, 3)],
         },
     };
     // C12 boxes that only run the search with the Debug-leak oracle (no middleware product)
     let leak_only: Vec<(usize, usize)> = match (mode, args.tier, num("requests")) {
         (Mode::C12, Tier::Quick, None) => vec![(2, 2)],
-        (Mode::C12, Tier::Thorough, None) => vec![(3, 3)],
+        (Mode::C12, Tier::Thorough, None) => vec![(3, 2)],
         _ => vec![],
     };
     let budget = Duration::from_secs(num("budget-s").map(|s| s as u64).unwrap_or(if args.tier == Tier::Quick { 50 } else { 17 * 60 }));
@@ -685,6 +680,20 @@ fn main() {
             }
         };
         if cmp(&a) != cmp(&b) {
+            let mut shown = 0;
+            for (k, v) in &a.labels {
+                let w = b.labels.get(k).copied().unwrap_or(0);
+                if *v != w && shown < 12 {
+                    eprintln!("label count differs: {k}: {v} vs {w}");
+                    shown += 1;
+                }
+            }
+            for (k, w) in &b.labels {
+                if !a.labels.contains_key(k) && shown < 16 {
+                    eprintln!("label only in run 2: {k}: {w}");
+                    shown += 1;
+                }
+            }
             machinery_error(&format!("nondeterministic search: run 1 [{}] vs run 2 (reversed successor order) [{}]", cmp(&a), cmp(&b)));
         }
         determinism = json!({"runs": 2, "second_run": "reversed successor order, rotated configuration order", "identical": true, "compared": cmp(&a)});
@@ -786,7 +795,7 @@ fn main() {
     let alphabet = "events: begin[{current,stale,no} cookie] | 23 session operations (server insert(k,v)/remove(k)/get(k) for k in {a,b}, v in {1,2}; clear; delete; force_load; sync; cycle_id; invalidate; client insert/remove/get/clear) | finalize";
     let rule = match mode {
         Mode::C11 => format!(
-            "{alphabet}. Bound: every history with <= {} requests x <= {} operations per request, for all 32 configurations (ServerStateCreation x MissingServerState x TtlExtensionTrigger x threshold{{None,0.8}} x cookie kind). BFS over histories replayed on fresh real objects, dedup on the canonical observable state (store, cookie jar, open-session cells, model state, budget). Oracle per transition: (a) reference model predicts every return value and the side-effect-free client view; at finalize: Ok expected, cookie kind/id/client map, store contents vs model (content differences are violations, existence of *empty* records is adopted unless a probe shows an effect), and probe requests presenting the current and the stale cookie must observe exactly the model's client/server key-values ((b) carry-over, (c) invalidate, (d) cycle_id). A transition is non-trivial when its outcome label (operation, server-state kind before/after, return value / cookie kind / store calls) is distinct; distinct_nontrivial counts distinct labels.",
+            "{alphabet}. Bound: every history with <= {} requests x <= {} operations per request, for all 32 configurations (ServerStateCreation x MissingServerState x TtlExtensionTrigger x threshold{{None,0.8}} x cookie kind). BFS over histories replayed on fresh real objects, dedup on the canonical observable state (store, cookie jar, open-session cells as printed by Debug, model state, budget; least rendering under the 4 permutations of keys/values). client.get(k) is evaluated in place on every state (side-effect-free client view) instead of as a separate replay. Oracle per transition: (a) reference model predicts every return value and the side-effect-free client view; at finalize: Ok expected, cookie kind/id/client map, store contents vs model (content differences are violations, existence of *empty* records is adopted unless a probe shows an effect), and probe requests presenting the current and the stale cookie must observe exactly the model's client/server key-values ((b) carry-over, (c) invalidate, (d) cycle_id). A transition is non-trivial when its outcome label (operation, server-state kind before/after, return value / cookie kind / store calls) is distinct; distinct_nontrivial counts distinct labels.",
             best_box.0, best_box.1
         ),
         Mode::C12 => format!(
@@ -834,7 +843,8 @@ fn main() {
             "no record expires and remaining_ttl < 0.8*ttl never holds during a run (TTL 2h, run < 20 min): deadlines are not part of the dedup key",
             "session ids are only compared for equality (renaming by role is behaviour preserving); UUID collisions are ignored",
             "the client presents the cookie it holds, the one it held before, or none (older cookies are not replayed)",
-            "state keys are SHA-256 truncated to 128 bits (hash compaction)",
+            "state keys are compacted to 128-bit fingerprints (two SipHash-2-4 passes with fixed keys)",
+            "data symmetry: keys {a,b} and values {1,2} are opaque to the session code, states are deduplicated modulo permutations of keys and of values (--symmetry off disables it); every history within the bound is covered up to that renaming",
             "one request at a time (no concurrent requests on one session; that is C13's subject)",
         ],
     );
